@@ -131,6 +131,13 @@ Theorem C18_rw_writer_pref_sys : forall s lab s' o w,
 Proof. exact writer_pref_sys. Qed.
 Print Assumptions C18_rw_writer_pref_sys.
 
+(* writers are served first-come first-served: while writers wait, only the head of the writer queue can become a writer *)
+Theorem C18_rw_writer_fifo_sys : forall pref s lab s' o h c r,
+  sys_step pref s lab = Some (s', o) -> g_ww (s_g s) = (h, c) :: r ->
+  forall t, find t (g_exec (s_g s)) = None -> find t (g_exec (s_g s')) = Some (mkEnt 0 1) -> t = h.
+Proof. exact writer_fifo_sys. Qed.
+Print Assumptions C18_rw_writer_fifo_sys.
+
 (* the hand-off is effective: the favoured waiter, once it has returned from Wait(), is admitted by its next critical section
    if nobody took the lock in between *)
 Theorem C18_rw_handoff_admits_writer : forall pref s, reachable pref s -> g_exec (s_g s) = [] ->
@@ -236,13 +243,16 @@ Proof.
   - vm_compute in E. discriminate.
 Qed.
 
-(* a stuck state: thread 0 holds a read lock and is outside any call, thread 1 waits for the write lock; nothing is enabled *)
+(* a stuck state: thread 0 holds a read lock and is outside any call, thread 1 waits for the write lock; NO transition of any
+   thread is enabled (the premise of C18_rw_no_stranding) *)
 Example C18_ex_stuck_behind_idle_holder :
   exists s, reachable true s /\ g_ww (s_g s) = [(1, 0)] /\ l_act (s_l s 0) = AIdle /\ find 0 (g_exec (s_g s)) = Some (mkEnt 1 0) /\
-            step true 1 CRun (s_g s) (s_l s 1) = None /\ step true 1 CTimeout (s_g s) (s_l s 1) = None.
+            (forall t c, step true t c (s_g s) (s_l s t) = None).
 Proof.
   destruct (run true [B 0 (OLockRO Never); R 0; B 1 (OLockRW Never); R 1] sys0) as [s|] eqn:E.
-  - exists s. split; [eapply run_reachable; [apply reach_init|exact E]|]. vm_compute in E. inversion E; subst. vm_compute. auto 10.
+  - exists s. split; [eapply run_reachable; [apply reach_init|exact E]|]. vm_compute in E. inversion E; subst.
+    repeat split; try (vm_compute; reflexivity).
+    intros t c. destruct t as [|[|t']]; destruct c; reflexivity.
   - vm_compute in E. discriminate.
 Qed.
 
